@@ -36,9 +36,33 @@ def run(ctx: Ctx) -> None:
 
     # ---------------------------------------------------------------- R13.1
     ctx.rule("R13.1", "_discard_contents(a, b): (a, b) is a bracket pair and a token of type a was just consumed", minimum=6)
+    arity = len(pm.fn("_discard_contents").args.args) - 1
+    if arity not in (1, 2):
+        raise AnalysisError("_discard_contents signature changed")
     for fname, call in pm.call_sites("_discard_contents"):
         a = call.args[0] if len(call.args) > 0 else None
         b = call.args[1] if len(call.args) > 1 else None
+        if arity == 1:
+            # the callee derives the closer from the opener itself (R13.2 runs it for every pair of the map)
+            ok = isinstance(a, ast.Constant) and a.value in bmap
+            why = "" if ok else f"{short(a)} is not an opener of _balanced_token_map"
+            if not ok and a is not None:
+                ch = attr_chain(a)
+                cfg = pm.cfg(fname)
+                n = node_containing(cfg, call)
+                if ch and len(ch) == 2 and ch[1] == "type" and n is not None:
+                    c_ = _typefacts(pm, fname).at(n, ch[0])
+                    if c_[0] == "in" and c_[1] and set(c_[1]) <= set(bmap):
+                        ctx.ob("R13.1", f"parser:CxxParser.{fname}|_discard_contents({short(a)}) #{_site_idx(pm, fname, call)}", True, node=call, mod=mod, detail={"openers": sorted(c_[1])})
+                        continue
+            if ok:
+                cfg = pm.cfg(fname)
+                n = node_containing(cfg, call)
+                if not _opener_consumed(pm, fname, cfg, n, a.value):
+                    ok = False
+                    why = f"no dominating consumption or test of a '{a.value}' token: the skipper would start counting in the middle of something else"
+            ctx.ob("R13.1", f"parser:CxxParser.{fname}|_discard_contents({short(a)}) #{_site_idx(pm, fname, call)}", ok, msg=why, node=call, mod=mod)
+            continue
         ok = isinstance(a, ast.Constant) and isinstance(b, ast.Constant) and bmap.get(a.value) == b.value
         why = "" if ok else f"({short(a)}, {short(b)}) is not an opener/closer pair of _balanced_token_map"
         if not ok and a is not None and b is not None and not isinstance(a, ast.Constant):
@@ -181,7 +205,7 @@ def run(ctx: Ctx) -> None:
         ts = [s for s, lab in ell[0].succ if lab == "T"]
         ok = len(ts) == 1 and ts[0].kind == "stmt" and isinstance(ts[0].stmt, ast.Assign) and any(r and r[0] == "lex" and r[1] in LEX_CONSUME for c, r in pm.node_calls("_discard_ctor_initializer", ts[0]))
     ctx.ob("R13.6", "parser:CxxParser._discard_ctor_initializer|'...' is skipped by fetching the next token", ok, msg="a trailing `...` is not simply consumed before the ','/'{' decision", node=dc, mod=mod)
-    bodies = [n for n in dcfg.nodes for c, r in pm.node_calls("_discard_ctor_initializer", n) if r == ("self", "_discard_contents") and [getattr(a, "value", None) for a in c.args] == ["{", "}"]]
+    bodies = [n for n in dcfg.nodes for c, r in pm.node_calls("_discard_ctor_initializer", n) if r == ("self", "_discard_contents") and [getattr(a, "value", None) for a in c.args] in (["{", "}"], ["{"])]
     rets = [n for n in dcfg.nodes if n.kind == "stmt" and isinstance(n.stmt, ast.Return)]
     ok = bool(rets) and all(any(dcfg.dominates(b, r) and any(s is r for s, _ in b.succ) for b in bodies) for r in rets)
     ctx.ob("R13.6", "parser:CxxParser._discard_ctor_initializer|returns right after discarding the body", ok, msg="the scanner does not return immediately after skipping the function body", node=dc, mod=mod)
@@ -289,7 +313,7 @@ def _counting_loop(ctx: Ctx, pm: ParserModel) -> None:
     """_discard_contents(start, end) is decided by interpreting its source over every short script of token classes
     {opener, closer, other} (sa/miniexec.py): entered after one opener, it must return right after the closer that
     balances that opener, having fetched exactly the tokens up to it - whatever loop shape computes that."""
-    from ..miniexec import Opaque, OutOfTokens, Run, Tok, Unsupported
+    from ..miniexec import Opaque, OpaqueWithConstants, OutOfTokens, Run, Tok, Unsupported
     import itertools
 
     fname = "_discard_contents"
@@ -297,9 +321,10 @@ def _counting_loop(ctx: Ctx, pm: ParserModel) -> None:
     mod = pm.mod
     cfg = pm.cfg(fname)
     params = [a.arg for a in fn.args.args[1:]]
-    if len(params) < 2:
+    if len(params) not in (1, 2):
         raise AnalysisError("_discard_contents signature changed")
-    start_p, end_p = params[0], params[1]
+    start_p, end_p = params[0], (params[1] if len(params) == 2 else None)
+    cfolder = ctx.repo.folder("parser", "CxxParser")
 
     def is_fetch(c: ast.Call) -> bool:
         r = pm.resolve(fname, c)
@@ -322,7 +347,10 @@ def _counting_loop(ctx: Ctx, pm: ParserModel) -> None:
     for (s_t, e_t, other) in (("(", ")", "x"), ("{", "}", "(")):
         for seq in scripts:
             toks = [Tok({"S": s_t, "E": e_t, "O": other}[ch]) for ch in seq] + [Tok(e_t), Tok(other)]
-            run = Run(cfg, {"self": Opaque(), start_p: s_t, end_p: e_t}, toks, is_fetch)
+            env13 = {"self": OpaqueWithConstants(cfolder.lookup), start_p: s_t}
+            if end_p is not None:
+                env13[end_p] = e_t
+            run = Run(cfg, env13, toks, is_fetch)
             try:
                 run.run()
             except OutOfTokens:
